@@ -181,7 +181,21 @@ def variant_input(sc, variant):
     elif variant == "cperm":
         cs = perm(cs)
     elif variant == "seperm":
-        se = perm(se)
+        # the listing of the Plugin events: a random shuffle, the reversed list, or a nearly chronological listing with
+        # one late arrival moved to the front part / one early arrival moved to the end (heap invariants of add_events)
+        mode = r.choice(["shuffle", "reversed", "late-early", "late-early", "early-late"])
+        chrono = sorted(se, key=lambda x: (x["arrival"], x["k"]))
+        if mode == "late-early" and len(se) >= 4:
+            j = r.randrange(2, len(chrono))
+            cand = chrono[:1] + [chrono[j]] + chrono[1:j] + chrono[j + 1:]
+        elif mode == "early-late" and len(se) >= 3:
+            j = r.randrange(0, len(chrono) - 1)
+            cand = chrono[:j] + chrono[j + 1:] + [chrono[j]]
+        elif mode == "reversed":
+            cand = chrono[::-1]
+        else:
+            cand = perm(se)
+        se = cand if cand != se else perm(se)
     elif variant == "shift":
         shift = sc["shift"]
         se = [dict(s, arrival=s["arrival"] + shift, departure=s["departure"] + shift) for s in se]
@@ -240,8 +254,9 @@ def run_variant(sc, variant, nested=None, alg_pool=None):
         handed.append(cur)
     if conmut in ("dummy", "both") and vi["stations"]:
         net.remove_constraint("scratch")
-    # NOT done here: editing the Current objects after add_constraint.  On the unchanged tree the network's constraint
-    # matrix aliases the first Current handed in (open finding "current-alias", see replay_known below).
+    if o.get("mutate_args"):
+        for cur in handed:                      # the caller edits its own Current objects afterwards: the network must not notice
+            cur[:] = 99
     evs = {}
     events = []
     ests = [s["departure"] + 1 + 2 * (s["k"] % 2) for s in vi["sessions"]]
@@ -498,12 +513,20 @@ def scenario_cases(sc, outs):
     return cases
 
 
+def corpus_scenarios():
+    """witnesses of fixed findings (corpus/C10/*.json), run first on every check"""
+    import glob
+    root = os.path.dirname(os.path.dirname(os.path.abspath(__file__)))
+    return [json.load(open(pth))["scenario"] for pth in sorted(glob.glob(os.path.join(root, "corpus", "C10", "*.json")))]
+
+
 def gen_cases(rng, n, tier):
     n_sc = max(1, n // 7)
     # every 5th scenario: single-phase site, feeder row of ones + binding pod rows; every 7th: three-phase site with binding
     # constraints; the rest: the general generator
-    scs = [rand_singlephase(rng, i) if i % 5 == 2 else rand_threephase(rng, i) if i % 7 == 3 else rand_scenario(rng, i)
-           for i in range(n_sc)]
+    scs = [rand_singlephase(rng, i) if i % 5 == 2 else rand_threephase(rng, i) if i % 7 == 3 else
+           rand_busy(rng, i) if i % 6 == 4 else rand_scenario(rng, i) for i in range(n_sc)]
+    scs = corpus_scenarios() + scs
     per = [[run_variant(sc, v) for v in VARIANTS] for sc in scs]
     for outs, h in zip(per, other_hashseed(scs)):
         outs.append(h)
@@ -570,6 +593,38 @@ def rand_singlephase(rng, idx):
         sort=rng.choice(["fcfs", "fcfs", "edf", "llf"]), max_recompute=rng.choice([None, 1]),
         script_seed=rng.randint(0, 10 ** 6), script_len=rng.randint(1, 3), shift=rng.randint(1, 3),
         perm_seed=rng.randint(0, 10 ** 6)))
+
+
+def rand_busy(rng, idx):
+    """7-12 sessions with distinct arrivals on 4-7 stations, listed chronologically (so that the session-permuted run is
+    the interesting one), any scheduler family, a binding feeder limit"""
+    n = rng.randint(4, 7)
+    names = ["BZ-%03d" % i for i in rng.sample(range(100, 160), n)]
+    kind = rng.choice(["unc", "scr", "sorted", "sorted"])
+    finite = kind == "sorted" and rng.random() < 0.6
+    stations = [dict(id=nm, kind=(["F", [8, 16, 24, 32]] if finite else ["C", 0, 32]), voltage=208, phase=0) for nm in names]
+    constraints = [dict(name="con-0", coefs={m: 1 for m in names}, limit=rng.choice([48, 64, 80]))]
+    m = rng.randint(7, 12)
+    arrs = sorted(rng.sample(range(0, 2 * m), m))
+    free_at = {nm: 0 for nm in names}
+    sessions, used_dep = [], set()
+    for k, a in enumerate(arrs):
+        cand = [nm for nm in names if free_at[nm] <= a]
+        if not cand:
+            continue
+        nm = rng.choice(cand)
+        d = a + rng.randint(2, 6)
+        while d in used_dep:
+            d += 1
+        used_dep.add(d)
+        free_at[nm] = d
+        sessions.append(dict(k=len(sessions), id="sess-%02d" % len(sessions), station=nm, arrival=a, departure=d,
+                             energy=rng.choice([2.0, 6.0, 12.0]), cap=60.0, init=0.0, maxp=rng.choice([6.5, 7.5])))
+    sc = dict(idx=idx, stations=stations, constraints=constraints, sessions=sessions, kind=kind,
+              sort=rng.choice(["fcfs", "edf"]), max_recompute=1 if kind != "scr" else rng.choice([None, 1, 2, 3]),
+              script_seed=rng.randint(0, 10 ** 6), script_len=rng.randint(1, 3), shift=rng.randint(1, 4),
+              perm_seed=rng.randint(0, 10 ** 6))
+    return add_options(rng, sc)
 
 
 def rewired(rng, sc, idx):
@@ -759,27 +814,6 @@ def monitor(case):
     return None
 
 
-def replay_known(entry):
-    """open finding current-alias: ChargingNetwork.add_constraint keeps the caller's Current aliased in constraint_matrix
-    (first constraint): editing the Current afterwards changes the network's constraint.  Returns a description while it
-    still reproduces, None once it is repaired."""
-    if entry.get("sig") != "current-alias":
-        return "not re-checked"
-    import numpy as np
-    from acnportal.acnsim import ChargingNetwork, Current
-    from acnportal.acnsim.models import EVSE
-    net = ChargingNetwork()
-    for sid in ("A", "B"):
-        net.register_evse(EVSE(sid, max_rate=32), 208, 0)
-    cur = Current({"A": 1, "B": 1})
-    net.add_constraint(cur, 40, name="c0")
-    before = net.constraint_matrix.copy()
-    cur[:] = 99
-    if not np.array_equal(before, net.constraint_matrix):
-        return "constraint_matrix %s became %s after the caller edited its own Current" % (before.tolist(), net.constraint_matrix.tolist())
-    return None
-
-
 def search(rng, budget_s, broken):
     t0 = time.time()
     i = 0
@@ -789,8 +823,8 @@ def search(rng, budget_s, broken):
                 r = monitor(c)
                 if r:
                     return dict(case=c["input"], impl=None, why=r)
-        sc = rand_singlephase(rng, 10 ** 6 + i) if i % 3 == 0 else rand_threephase(rng, 10 ** 6 + i) if i % 3 == 2 \
-            else rand_scenario(rng, 10 ** 6 + i)
+        sc = rand_singlephase(rng, 10 ** 6 + i) if i % 4 == 0 else rand_threephase(rng, 10 ** 6 + i) if i % 4 == 2 \
+            else rand_busy(rng, 10 ** 6 + i) if i % 4 == 3 else rand_scenario(rng, 10 ** 6 + i)
         i += 1
         outs = [run_variant(sc, v) for v in VARIANTS]
         for c in scenario_cases(sc, outs + [dict(outs[0], variant="hash")]):
